@@ -8,7 +8,11 @@ JudgeOne(i) ==
       f == FromSnapshot(Seq2Set(o.fs)) @@ (Root :> D7)
       l1 == PrepRun(f0, LinesP(o.rules), HasRF(f0))
       v == PrepVerdict(f0, o.rules, o.st, f, Seq2Set(o.outside_changed), o.tmp_left)
+      \* what is compared between observation and prediction: paths, kinds, file modes and contents, link targets
+      \* (directory modes and times inside the package change while entries are removed)
+      Shape(g) == { <<p, g[p].k, IF g[p].k = "f" THEN <<g[p].m, g[p].c>> ELSE IF g[p].k = "l" THEN g[p].tgt ELSE <<>> >> : p \in DOMAIN g }
   IN PrintT("@@" \o ToJson([fam |-> "judge", idx |-> i,
+        same |-> (o.st = l1.st /\ (l1.st = "ok" => Shape(f) = Shape(l1.fs))),
         v |-> v @@ [kf10 |-> KF10Class(f0, o.rules, o.st, f), kf03 |-> "", kf19 |-> ""],
         l1 |-> [st |-> l1.st, why |-> "", v |-> PrepVerdict(f0, o.rules, l1.st, l1.fs, {}, FALSE)]]))
 ASSUME \A i \in DOMAIN Obs : JudgeOne(i)
